@@ -17,7 +17,7 @@ theorem LeafObj.of_get? {s s' : St} {a : Nat} (h : LeafObj s a) (e : s'.get? a =
 theorem Rest.refl (ι : String → String) (u : Nat) (s : St) : Rest ι u s s :=
   { others := fun _ _ => rfl
     self := fun o ho => ⟨o, ho, by cases o; rfl⟩
-    names := rfl, nextUid := rfl, work := ⟨rfl, rfl⟩, shares := fun _ _ => rfl, uids := rfl }
+    names := rfl, nextUid := rfl, work := ⟨rfl, rfl⟩, shares := fun _ _ => rfl, uids := rfl, now := rfl }
 
 theorem sim_of_obj (ι : String → String) (P : List Frame) (a : Nat) (s : St) (o : Fr) (ho : s.get? a = some o)
     (hfr : o.frames = P.map (Frame.mapRef ι)) :
@@ -382,5 +382,119 @@ theorem rearCreate_spec (u : Nat) (moot frame : String) (s s' : St) (c : Fr)
             · rw [← h1]
               show s1.presolvables ++ [c1.uid] = s.presolvables ++ [c1.uid]
               rw [k10]
+
+
+/-! ### static clones -/
+
+/-- one entry of `Framer.resolveMoots`: what a clone clause `aux orig as tag [via inode]` of framer `u` makes -/
+theorem resolveMoot_spec (u : Nat) (s s' : St) (tag : String) (d : Moot)
+    (hfresh : s.get? s.nextUid = none) (h : resolveMoot u s (tag, d) = .ok s') :
+    ∃ orig me sn, d.clone = tag ∧ tag ≠ "mine" ∧ resolveFramer s d.original (some .moot) = .ok orig ∧
+      s.get? u = some me ∧ me.lineage.contains orig.name = false ∧ lookup me.auxes tag = none ∧
+      surname s u = .ok sn ∧ lookup s.names (sn ++ "_" ++ tag) = none ∧
+      lookup s'.names (sn ++ "_" ++ tag) = some s.nextUid ∧
+      (∃ c', s'.get? s.nextUid = some c' ∧ c'.name = sn ++ "_" ++ tag ∧ c'.original = false ∧
+        c'.insular = d.insular ∧ c'.razeable = false ∧ c'.main = none ∧
+        c'.inode = (if d.inode ≠ "mine" then d.inode else orig.inode) ∧
+        c'.lineage = me.lineage ++ [orig.name] ∧ c'.frames = orig.frames.map Frame.clone ∧ c'.first = orig.first ∧
+        c'.moots = orig.moots ∧ c'.ctl = {}) ∧
+      (∃ me', s'.get? u = some me' ∧ lookup me'.auxes tag = some s.nextUid ∧ me'.frames = me.frames) ∧
+      (∀ v, v ≠ u → v ≠ s.nextUid → s'.get? v = s.get? v) ∧
+      s'.presolvables = s.presolvables ++ [s.nextUid] := by
+  unfold resolveMoot at h
+  simp only [] at h
+  split at h
+  · cases h
+  · rename_i h1
+    split at h
+    · cases h
+    · rename_i h2
+      cases ho : resolveFramer s d.original (some .moot) with
+      | error e => simp [ho] at h
+      | ok orig =>
+        simp only [ho] at h
+        cases hme : s.get? u with
+        | none => simp [hme] at h
+        | some me =>
+          simp only [hme] at h
+          split at h
+          · cases h
+          · rename_i h3
+            split at h
+            · cases h
+            · rename_i h4
+              cases hs : surname s u with
+              | error e => simp [hs] at h
+              | ok sn =>
+                simp only [hs] at h
+                cases hc : cloneFramer s orig (sn ++ "_" ++ tag) tag with
+                | error e => cases e <;> simp [hc] at h
+                | ok sc =>
+                  obtain ⟨s1, c1⟩ := sc
+                  simp only [hc] at h
+                  injection h with h
+                  obtain ⟨k1, k2, k3, k4, k5, k6, k7, k8, k9, k10, k11, k12⟩ :=
+                    cloneFramer_spec s s1 orig c1 (sn ++ "_" ++ tag) tag hfresh hc
+                  have kdef := (show c1.first = orig.first ∧ c1.moots = orig.moots ∧ c1.inode = orig.inode ∧
+                      c1.razeable = false ∧ c1.insular = false from by
+                    unfold cloneFramer at hc
+                    split at hc
+                    · cases hc
+                    · split at hc
+                      · cases hc
+                      · split at hc
+                        · cases hc
+                        · simp only [newFramer] at hc
+                          injection hc with hc
+                          injection hc with _ hc2
+                          subst hc2
+                          exact ⟨rfl, rfl, rfl, rfl, rfl⟩)
+                  have hu : u ≠ s.nextUid := by
+                    intro e
+                    rw [e, hfresh] at hme
+                    cases hme
+                  have hcu : c1.uid ≠ u := by rw [k1]; exact fun e => hu e.symm
+                  let fa : Fr → Fr := fun o => { o with auxes := assign o.auxes tag c1.uid }
+                  let fl : Fr → Fr := fun o => { o with lineage := me.lineage ++ [orig.name],
+                                                        inode := if d.inode ≠ "mine" then d.inode else o.inode,
+                                                        original := false, insular := d.insular }
+                  have g1 : ∀ v, (s1.mod u fa).get? v = if v = u then (s1.get? v).map fa else s1.get? v :=
+                    fun v => get?_mod s1 u v fa (fun _ => rfl)
+                  have g2 : ∀ v, ((s1.mod u fa).mod c1.uid fl).get? v
+                      = if v = c1.uid then ((s1.mod u fa).get? v).map fl else (s1.mod u fa).get? v :=
+                    fun v => get?_mod _ c1.uid v fl (fun _ => rfl)
+                  have hfin : ∀ v, s'.get? v = ((s1.mod u fa).mod c1.uid fl).get? v := by
+                    intro v; rw [← h]; rfl
+                  have hnot : (me.lineage.contains orig.name) = false := by
+                    cases hq : me.lineage.contains orig.name with
+                    | false => rfl
+                    | true => exact absurd hq h3
+                  have hnone : lookup me.auxes tag = none := by
+                    cases hq : lookup me.auxes tag with
+                    | none => rfl
+                    | some x => simp [hq] at h4
+                  refine ⟨orig, me, sn, ?_, ?_, rfl, rfl, hnot, hnone, rfl, k12, ?_, ?_, ?_, ?_, ?_⟩
+                  · exact Decidable.of_not_not h1
+                  · intro e; apply h2; rw [Decidable.of_not_not h1, e]
+                  · rw [← h]
+                    show lookup s1.names (sn ++ "_" ++ tag) = some s.nextUid
+                    rw [k9]
+                    exact lookup_assign_self _ _ _
+                  · refine ⟨fl c1, ?_, k2, rfl, rfl, kdef.2.2.2.1, k7, ?_, rfl, k4, kdef.1, kdef.2.1, k6⟩
+                    · rw [hfin, ← k1, g2, if_pos rfl, g1, if_neg hcu, k8, k1, if_pos rfl]
+                      rfl
+                    · show (if d.inode ≠ "mine" then d.inode else c1.inode) = _
+                      rw [kdef.2.2.1]
+                  · refine ⟨fa me, ?_, ?_, rfl⟩
+                    · rw [hfin, g2, if_neg (fun e => hcu e.symm), g1, if_pos rfl, k8, if_neg hu, hme]
+                      rfl
+                    · show lookup (assign me.auxes tag c1.uid) tag = some s.nextUid
+                      rw [k1]
+                      exact lookup_assign_self _ _ _
+                  · intro v hvu hvc
+                    rw [hfin, g2, if_neg (by rw [k1]; exact hvc), g1, if_neg hvu, k8, if_neg hvc]
+                  · rw [← h]
+                    show s1.presolvables ++ [c1.uid] = s.presolvables ++ [s.nextUid]
+                    rw [k10, k1]
 
 end Ioflo.Clones
